@@ -133,61 +133,73 @@ def block_partitioner(ctx):
     ctx.ob('C06.S1', fm.short, 'group size len(indices)+1 = slice width = stride', okw,
            f'each concatenation must take len(indices)+1 consecutive partitions and advance by the same amount; got `{why}`',
            ctx.loc(fm), sample='partitions[ind:ind+n], ind += n, n = len(indices) + 1')
-  # __init__ arithmetic
-  ev = evaluator(m, decide=Decider(extra=lambda c: True if (c.op == 'bool' and c.args[0] == 'and' and 'block_size' in show(c)) else None))
+  # __init__ arithmetic (values are found by their shape in the local scope, whatever they are called).
+  # The guard is decided by witness: comparisons between block_size, the dimension d and constants are folded for
+  # chosen (block_size, d) pairs, and the split branch must be taken exactly for 0 < block_size < d.
+  bs = sym('param', fi.short, 'block_size')
   selft = sym('param', fi.short, 'self')
-  # evaluate the loop body for one abstract dimension: use closure on the for statement
-  r = ev.run(fi, args={'self': selft})
-  sc = ev.last_scope
+  import operator as _op
+  OPS = {'<': _op.lt, '<=': _op.le, '>': _op.gt, '>=': _op.ge, '==': _op.eq, '!=': _op.ne}
+
+  def witness(bv, dv):
+    def val(t):
+      t = strip_casts(t)
+      if t is bs:
+        return bv
+      if is_const(t) and isinstance(cval(t), (int, float)) and not isinstance(cval(t), bool):
+        return cval(t)
+      if t.op == 'elem' and path_str(t.args[0]) in ('param.shape', 'self._shape'):
+        return dv
+      if t.op == 'sub' and t.args[0].op == 'elem' and is_const(t.args[1], 1) and 'enumerate' in show(t.args[0], maxdepth=3):
+        return dv
+      return None
+
+    def oracle(c):
+      if c.op == 'cmp' and c.args[0] in OPS:
+        l, r_ = val(c.args[1]), val(c.args[2])
+        if l is not None and r_ is not None:
+          return bool(OPS[c.args[0]](l, r_))
+      return None
+    return oracle
+
+  def run_with(bv, dv):
+    ev_ = evaluator(m, decide=Decider(extra=witness(bv, dv)))
+    ev_.run(fi, args={'self': selft})
+    allv_ = [x for v_ in ev_.last_scope.vars.values() for x in walk(v_)]
+    return ev_, allv_
+  for bv, dv, want in [(2, 5, True), (4, 5, True), (1, 2, True), (5, 5, False), (7, 5, False), (0, 5, False), (-1, 5, False)]:
+    ev_, allv_ = run_with(bv, dv)
+    took = any(x.op == 'bin' and x.args[0] == '//' and x.args[2] is bs for x in allv_)
+    ctx.ob('C06.S1', fi.short, f'split only when 0 < block_size < d [block_size={bv}, d={dv}]', took == want,
+           f'a dimension must be split iff 0 < block_size < d: with block_size={bv}, d={dv} the split branch is {"taken" if took else "not taken"}',
+           ctx.loc(fi), sample=f'block_size={bv}, d={dv}: {"split" if want else "whole"}')
+  ev, allv = run_with(2, 5)
   cmpr = Comparer()
-  d = None
-  nsplit = sc.vars.get('nsplit')
-  ok = nsplit is not None
-  if ok:
-    cands = [x for x in walk(nsplit) if x.op == 'bin' and x.args[0] == '//']
-    ok = bool(cands)
-    if ok:
-      e = cands[0]
-      bs = sym('param', fi.short, 'block_size')
-      okn = e.args[2] is bs and e.args[1].op == 'bin' and e.args[1].args[0] == '-' and is_const(e.args[1].args[2], 1)
-      ctx.ob('C06.S1', fi.short, 'nsplit = (d - 1) // block_size', okn,
-             f'number of split points must be (d-1)//block_size (d//block_size yields an empty block at exact multiples); got `{show(e, maxdepth=4)}`',
-             ctx.loc(fi), sample='nsplit = (d - 1) // block_size')
-      dd = e.args[1].args[1] if okn else None
-      ind = sc.vars.get('indices')
-      sizes = sc.vars.get('sizes')
-      if okn and ind is not None:
-        ns = e
-        exp = spec_term(ev, '(np.arange(ns, dtype=np.int32) + 1) * bs', {'ns': ns, 'bs': bs})
-        base_ind = [x for x in walk(ind) if x.op == 'bin' and x.args[0] == '*']
-        ctx.ob('C06.S1', fi.short, 'indices = (arange(nsplit)+1) * block_size', any(cmpr.same(x, exp) for x in base_ind),
-               f'split indices must be block_size, 2*block_size, ...; got `{show(ind, maxdepth=5)[:160]}`', ctx.loc(fi),
-               sample='indices = (arange(nsplit) + 1) * block_size')
-      if okn and sizes is not None:
-        stores = [x for x in walk(sizes) if x.op == 'store']
-        oks = False
-        for st_ in stores:
-          if is_const(st_.args[1], -1):
-            val = st_.args[2]
-            oks = val.op == 'bin' and val.args[0] == '-' and val.args[1] is dd and val.args[2].op == 'sub' and is_const(val.args[2].args[1], -1)
-        ctx.ob('C06.S1', fi.short, 'last block size = d - indices[-1]', oks,
-               f'the last block must take the remainder d - indices[-1]; got `{show(sizes, maxdepth=5)[:200]}`', ctx.loc(fi),
-               sample='sizes[-1] = d - indices[-1]')
+  cands = [x for x in allv if x.op == 'bin' and x.args[0] == '//' and x.args[2] is bs]
+  if cands:
+    e = cands[0]
+    okn = e.args[1].op == 'bin' and e.args[1].args[0] == '-' and is_const(e.args[1].args[2], 1)
+    ctx.ob('C06.S1', fi.short, 'nsplit = (d - 1) // block_size', okn,
+           f'number of split points must be (d-1)//block_size (d//block_size yields an empty block at exact multiples); got `{show(e, maxdepth=4)}`',
+           ctx.loc(fi), sample='nsplit = (d - 1) // block_size')
+    dd = e.args[1].args[1] if okn else None
+    if okn:
+      exp = spec_term(ev, '(np.arange(ns, dtype=np.int32) + 1) * bs', {'ns': e, 'bs': bs})
+      base_ind = [x for x in allv if x.op == 'bin' and x.args[0] == '*']
+      ctx.ob('C06.S1', fi.short, 'indices = (arange(nsplit)+1) * block_size', any(cmpr.same(x, exp) for x in base_ind),
+             'split indices must be block_size, 2*block_size, ...', ctx.loc(fi),
+             sample='indices = (arange(nsplit) + 1) * block_size')
+      stores = [x for x in allv if x.op == 'store' and is_const(x.args[1], -1)]
+      oks = False
+      for st_ in stores:
+        val_ = st_.args[2]
+        if val_.op == 'bin' and val_.args[0] == '-' and val_.args[1] is dd and val_.args[2].op == 'sub' and is_const(val_.args[2].args[1], -1):
+          oks = True
+      ctx.ob('C06.S1', fi.short, 'last block size = d - indices[-1]', oks,
+             'the last block must take the remainder d - indices[-1]', ctx.loc(fi),
+             sample='sizes[-1] = d - indices[-1]')
   else:
     ctx.ob('C06.S1', fi.short, 'nsplit', False, 'split arithmetic not found', ctx.loc(fi))
-  # guard 0 < block_size < d
-  ev2 = evaluator(m)
-  ev2.run(fi, args={'self': selft})
-  guards = [c for c in ev2.scopes.values() if False]
-  import ast
-  tests = [n for n in ast.walk(fi.node) if isinstance(n, ast.If)]
-  okg = False
-  for t in tests:
-    src = ast.unparse(t.test).replace(' ', '')
-    if src in ('0<block_size<d', 'd>block_size>0', '0<block_sizeandblock_size<d', 'block_size>0andblock_size<d', 'block_size>0andd>block_size'):
-      okg = True
-  ctx.ob('C06.S1', fi.short, 'split only when 0 < block_size < d', okg,
-         'a dimension must be split iff 0 < block_size < d', ctx.loc(fi), sample='if 0 < block_size < d')
 
 
 def _elem_component(t, k, reversed_, owner):
@@ -401,11 +413,6 @@ def slot_arithmetic(ctx):
   ctx.ob('C06.S5', fsh.short, 'shapes announced block-major', ok,
          'preconditioner shapes must be announced per block in itertools.product(*split_sizes) order (the order partition produces blocks)',
          ctx.loc(fsh), sample='for t in itertools.product(*split_sizes)')
-  fpf = m.func(MOD, 'Preconditioner._preconds_for_grad')
-  import ast
-  asserts = [n for n in ast.walk(fpf.node) if isinstance(n, ast.Assert)]
-  ctx.ob('C06.S5', fpf.short, 'length assertion kept', any('len(' in ast.unparse(a.test) and 'rank' in ast.unparse(a.test) for a in asserts),
-         '_preconds_for_grad must assert the padded list has one entry per dim', ctx.loc(fpf), sample='assert len(...) == rank', trivial=True)
 
 
 # ------------------------------------------------------------------ S6
